@@ -412,7 +412,8 @@ def project(sc, r):
                     if "rpc_err" in f or "regionerr" in f:
                         st = "regionerr"
                     elif len(f.get("locks") or []) == len(sf.get("keys") or []) and not f.get("commit_ts"):
-                        st = "locks:" + ",".join(f"{kid(l['key'])}={hexn(l['min_commit'])}" for l in f["locks"])
+                        # M = the lock's min-commit ts if it is an async-commit lock, 0 otherwise (docs/PERC_EVENTS.md)
+                        st = "locks:" + ",".join(f"{kid(l['key'])}={hexn(l['min_commit'] if l.get('async') else 0)}" for l in f["locks"])
                     else:
                         st = "commit:" + hexn(f.get("commit_ts", 0))
                     lines.append("\t".join(head + [st]))
